@@ -148,6 +148,9 @@ func c05Body(cfg c05Cfg, maxAttempts int, res *c05Res) func() {
 			if len(req.items) == 1 && req.items[0] == 9 {
 				// the second request, sent after the exporter was shut down: it always fails transiently
 				res.attempts2++
+				if res.attempts2 > 25 {
+					return nil // a retry loop that ignores the shutdown would never end: the count above is the verdict
+				}
 				return errors.New("transient")
 			}
 			res.attempts = append(res.attempts, c05Attempt{vs.Now().Sub(t0), fmt.Sprint(req.items)})
